@@ -1184,6 +1184,110 @@ func execC19Stall(c *child.Ctx, k proxyCase, cj []byte) {
 	}
 }
 
+// execC19StalledNeighbour: two calls through the proxy at the same time.  The server
+// of the first stops reading in the middle of a large upload, so that the proxy is
+// held up inside its write for that call.  The second call is none of its business:
+// what its client sends reaches its server, and what its server sends reaches its
+// client, while the first is still stuck.
+func execC19StalledNeighbour(c *child.Ctx, k proxyCase, cj []byte) {
+	p, err := startProxyX(c, k.ID, true)
+	if err != nil {
+		if p != nil {
+			p.stop()
+		}
+		c.Inconclusive("proxy could not be started: " + err.Error())
+		return
+	}
+	defer p.stop()
+	r := ref.NewRand(k.Seed)
+	big := proxyStream(r, k.StallBytes)
+	connA, err := net.DialTimeout("tcp", fmt.Sprintf("127.0.0.1:%d", p.proxyPort), 5*time.Second)
+	if err != nil {
+		c.Inconclusive("cannot connect to the proxy: " + err.Error())
+		return
+	}
+	defer connA.Close()
+	upA, err := acceptWithin(p.upstream, 20*time.Second)
+	if err != nil {
+		c.Inconclusive("the proxy did not connect upstream: " + err.Error())
+		return
+	}
+	defer upA.Close()
+	go func() {
+		rest := big
+		for len(rest) > 0 {
+			n := 16384
+			if n > len(rest) {
+				n = len(rest)
+			}
+			if _, err := connA.Write(rest[:n]); err != nil {
+				return
+			}
+			rest = rest[n:]
+			tick()
+		}
+	}()
+	first := make([]byte, 3000)
+	io.ReadFull(upA, first)
+	upPort := upA.LocalAddr().(*net.TCPAddr).Port
+	var lastQ, stable int64 = -1, 0
+	for i := 0; i < 600 && stable < 8; i++ {
+		q := sendQueueTowards(upPort)
+		if q == lastQ && q > 0 {
+			stable++
+		} else {
+			stable = 0
+		}
+		lastQ = q
+		sleepTicking(100 * time.Millisecond)
+	}
+	// the second call
+	connB, err := net.DialTimeout("tcp", fmt.Sprintf("127.0.0.1:%d", p.proxyPort), 5*time.Second)
+	if err != nil {
+		c.Inconclusive("cannot connect a second client: " + err.Error())
+		return
+	}
+	defer connB.Close()
+	upB, err := acceptWithin(p.upstream, 20*time.Second)
+	if err != nil {
+		c.Inconclusive("the proxy did not connect upstream for the second call while the first was held up")
+		return
+	}
+	defer upB.Close()
+	cB, sB := proxyStream(r, r.Range(2000, 9000)), proxyStream(r, r.Range(500, 4000))
+	cs, ss := make(chan struct{}), make(chan struct{})
+	go func() { writeChunks(connB, cB, 0, 0, ref.NewRand(k.Seed+5)); close(cs) }()
+	go func() { writeChunks(upB, sB, 0, 0, ref.NewRand(k.Seed+6)); close(ss) }()
+	var upGot, clGot []byte
+	var wg sync.WaitGroup
+	wg.Add(2)
+	go func() { defer wg.Done(); upGot = readN(upB, len(cB), 20*time.Second, cs) }()
+	go func() { defer wg.Done(); clGot = readN(connB, len(sB), 20*time.Second, ss) }()
+	wg.Wait()
+	if !p.alive() {
+		c.Violate("proxy-died", "the proxy process ended while one call was held up and another was relayed: "+p.stderrTail(), cj)
+		return
+	}
+	if !bytes.Equal(upGot, cB) || !bytes.Equal(clGot, sB) {
+		prefix := len(upGot) <= len(cB) && bytes.Equal(upGot, cB[:len(upGot)]) && len(clGot) <= len(sB) && bytes.Equal(clGot, sB[:len(clGot)])
+		if !prefix {
+			c.Violate("relay-altered", fmt.Sprintf("second call, while the first was held up by its server: server received %d of %d bytes (%s), client received %d of %d (%s)", len(upGot), len(cB), firstDiff(upGot, cB), len(clGot), len(sB), firstDiff(clGot, sB)), cj)
+			return
+		}
+		// incomplete after 20 s of silence: is the second call's goroutine waiting inside
+		// the proxy (a lock, a channel) rather than for the network?
+		p.cmd.Process.Signal(syscall.SIGQUIT)
+		<-p.exited
+		if where := clientGoroutineBlockedInside(p.fullStderr()); where != "" {
+			c.Violate("relay-withheld", fmt.Sprintf("while the server of one call did not read (its upload of %d bytes held up inside the proxy), a second call was given %d bytes by its client and its server received only %d in 20 s; a goroutine relaying client data is parked inside the proxy: %s", len(big), len(cB), len(upGot), where), cj)
+		} else {
+			c.Inconclusive("second call incomplete after 20 s without a logical explanation")
+		}
+		return
+	}
+	c.Count("calls_relayed_while_another_call_was_held_up_by_its_server", 1)
+}
+
 // execC19HalfClose: the caster answers and then shuts down its sending side only (it
 // has nothing more to say) while it keeps reading; everything the client sends
 // afterwards must still reach it.
@@ -1433,6 +1537,8 @@ func monC19(c *child.Ctx, replay json.RawMessage) {
 		c.Begin(replay)
 		if k.Kind == "stall" {
 			execC19Stall(c, k, replay)
+		} else if k.Kind == "neighbour" {
+			execC19StalledNeighbour(c, k, replay)
 		} else if k.Kind == "bulk" {
 			execC19Bulk(c, k, replay)
 		} else if k.Kind == "halfclose" {
@@ -1481,6 +1587,12 @@ func monC19(c *child.Ctx, replay json.RawMessage) {
 		k := proxyCase{ID: c.Batch*10000 + 9500, Kind: "stall", Seed: r.Uint64() >> 1, StallMs: int(timedStalls(c)[sb].Milliseconds())*10 + 500, StallBytes: 6000000}
 		cj := c.BeginV(k)
 		execC19Stall(c, k, cj)
+		c.Eval(ref.Hash64(cj), true)
+	}
+	if (c.Batch == 2 || c.Thorough() && c.Batch%8 == 2) && c.NViolations() == 0 {
+		k := proxyCase{ID: c.Batch*10000 + 9550, Kind: "neighbour", Seed: r.Uint64() >> 1, StallBytes: 6000000}
+		cj := c.BeginV(k)
+		execC19StalledNeighbour(c, k, cj)
 		c.Eval(ref.Hash64(cj), true)
 	}
 	if c.Batch == 1 || c.Thorough() && c.Batch%8 == 1 {
